@@ -349,7 +349,9 @@ def _check(mod, ctx, args):
         ok, out, dt = extract()
         cmds.append("python3 tools/extract.py /repo")
         if not ok:
-            ctx.broke("extract", out)
+            # fail closed: a table that could not be extracted leaves its Generated file without
+            # definitions, so the dependent build below fails if (and only if) this check needs it
+            ctx.note("extract: " + " | ".join(l for l in out.splitlines() if "fail" in l or "crash" in l))
         targets = list(mod.LEAN_TARGETS) + [mod.AUDIT_FILE[:-5].replace("/", ".")]
         rc, out, dt = lean_build(targets)
         cmds.append("cd lean && lake build " + " ".join(targets))
